@@ -688,6 +688,7 @@ MEDDLY::dd_edge::iterator::iterator()
 MEDDLY::dd_edge::iterator::iterator(const dd_edge &E, const minterm* _mask)
 {
     init_with_forest( E.getForest() );
+    if (!F) return;     // detached edge: this is an end iterator
 
     //
     // Everything is set up except for mask specific stuff.
@@ -699,6 +700,7 @@ MEDDLY::dd_edge::iterator::iterator(const dd_edge &E, const minterm* _mask)
 MEDDLY::dd_edge::iterator::iterator(const dd_edge &E, unsigned (*RNG)(unsigned))
 {
     init_with_forest( E.getForest() );
+    if (!F) return;     // detached edge: this is an end iterator
 
     mask = nullptr;
     root_ev = E.getEdgeValue();
